@@ -134,6 +134,18 @@ pub fn plan(tier: Tier) -> Plan {
             }
         }));
     }
-    p.must_be_nonzero = vec!["fanout_cases".into()];
+    for part in 0..8usize {
+        p.units.push(unit("label-family-all-256-bytes", format!("labels part {}", part), move |st, rep| {
+            for (i, (_, kvs)) in label_family().into_iter().enumerate() {
+                if i % 8 != part {
+                    continue;
+                }
+                st.nontrivial += (kvs.len() >= 2) as u64;
+                st.count("label_cases", 1);
+                do_case(&kvs, (2, 2), true, &[], st, rep);
+            }
+        }));
+    }
+    p.must_be_nonzero = vec!["fanout_cases".into(), "label_cases".into()];
     p
 }
